@@ -67,6 +67,37 @@ def _other(v: Any) -> Any:
     return None
 
 
+def _fine_others(v: Any) -> Iterator[Tuple[str, Any]]:
+    """Smallest visible changes of one leaf value: each is a different value, so a different configuration meaning."""
+    import math
+
+    if isinstance(v, bool):
+        return
+    if isinstance(v, str):
+        yield "str_trailing_space", v + " "
+        yield "str_leading_space", " " + v
+        yield "str_trailing_newline", v + "\n"
+        if v.swapcase() != v:
+            yield "str_case", v.swapcase()
+    elif isinstance(v, float) and math.isfinite(v):
+        yield "float_ulp", math.nextafter(v, math.inf)
+        if v != 0.0:
+            yield "float_sign", -v
+    elif isinstance(v, int):
+        yield "int_sign", -v if v else 1
+
+
+def _containers(obj: Any, path=()) -> Iterator[Tuple[tuple, Any]]:
+    if isinstance(obj, dict):
+        yield path, obj
+        for k, v in obj.items():
+            yield from _containers(v, path + (k,))
+    elif isinstance(obj, list):
+        yield path, obj
+        for i, v in enumerate(obj):
+            yield from _containers(v, path + (i,))
+
+
 def mutate_expr(expr: str, names: List[str]) -> Iterator[Tuple[str, str]]:
     m = re.search(r"\d+(\.\d+)?", expr)
     if m:
@@ -150,6 +181,28 @@ def mutations(case: Dict[str, Any]) -> Iterator[Tuple[str, int, Dict[str, Any], 
             c = copy.deepcopy(case)
             _set(c["nodes"][i]["params"], path, nv)
             yield ("param_value_depth%d" % min(len(path), 3)), i, c, [i]
+        for path, v in _leaves(n.get("params") or {}):
+            for kind, nv in _fine_others(v):
+                c = copy.deepcopy(case)
+                _set(c["nodes"][i]["params"], path, nv)
+                yield "param_" + kind, i, c, [i]
+        for path, cont in _containers(n.get("params") or {}):
+            if not path:
+                continue
+            if isinstance(cont, list) and len(cont) >= 2 and cont[0] != cont[-1]:
+                c = copy.deepcopy(case)
+                _set(c["nodes"][i]["params"], path, list(reversed(cont)))
+                yield "param_list_reversed", i, c, [i]
+            if isinstance(cont, list):
+                c = copy.deepcopy(case)
+                _set(c["nodes"][i]["params"], path, list(cont) + [cont[-1] if cont else 0.0])
+                yield "param_list_length", i, c, [i]
+            if isinstance(cont, dict) and cont:
+                k0 = sorted(cont, key=str)[0]
+                c = copy.deepcopy(case)
+                nd = {(str(k) + "_" if k == k0 else k): v for k, v in cont.items()}
+                _set(c["nodes"][i]["params"], path, nd)
+                yield "param_dict_key", i, c, [i]
         # delete / insert / swap
         if len(nodes) > 1:
             c = copy.deepcopy(case)
@@ -199,6 +252,14 @@ def mutations(case: Dict[str, Any]) -> Iterator[Tuple[str, int, Dict[str, Any], 
                     vals[j] = vals[j] + 1.0
                     yield mv("values", vals, "sequence_element")
                 yield mv("values", list(spec["values"]) + [7.0], "sequence_length")
+                vals = list(spec["values"])
+                for j in range(len(vals) - 1):  # order matters: same multiset, neighbouring elements exchanged
+                    if vals[j] != vals[j + 1]:
+                        sw2 = list(vals)
+                        sw2[j], sw2[j + 1] = sw2[j + 1], sw2[j]
+                        yield mv("values", sw2, "sequence_swap_adjacent")
+                if len(vals) >= 2 and vals != vals[::-1]:
+                    yield mv("values", vals[::-1], "sequence_reversed")
             else:
                 other = [k for k in ("seq", "t_values", "a", "b") if k != spec["key"] and all(
                     not (s["kind"] == "ctx" and s["key"] == k) for s in sw["vars"].values())]
@@ -295,8 +356,10 @@ def shrink_candidates(case):
 OPS = ["processor", "processor_template_text", "processor_slice_wrapped", "processor_slice_collection", "processor_dotted_key", "param_value_depth2", "param_value_depth3", "delete_node", "insert_node", "swap_nodes",
        "sweep_wrapped_processor", "sweep_expr_constant", "sweep_expr_variable", "sweep_expr_operator", "sweep_expr_plus_times", "sweep_var_lo", "sweep_var_hi",
        "sweep_var_steps", "sweep_var_scale", "sweep_var_endpoint", "sweep_var_sequence_element", "sweep_var_from_context_key",
-       "sweep_mode", "sweep_broadcast", "sweep_collection"]
+       "sweep_mode", "sweep_broadcast", "sweep_collection",
+       "param_str_trailing_space", "param_str_leading_space", "param_str_case", "param_float_ulp", "param_float_sign", "param_list_reversed", "param_list_length",
+       "param_dict_key", "sweep_var_sequence_swap_adjacent", "sweep_var_sequence_reversed"]
 
 
 def label_requirements(tier: str) -> Dict[str, Any]:
-    return {"op:" + o: 50 for o in OPS}
+    return {"op:" + o: (15 if o in ("sweep_var_scale", "processor_dotted_key") else 40) for o in OPS}
